@@ -367,8 +367,221 @@ fn random_text(t: &mut Tape, max: usize) -> String {
     s
 }
 
+
+// ---------------------------------------------------------------------------------------------
+// key and certificate signatures: every making API crossed with every applicable checking API
+// ---------------------------------------------------------------------------------------------
+
+fn certificate_signature_case(t: &mut Tape, rec: &mut Rec, kinds: &[Kind]) -> CaseResult {
+    use pgp::composed::{SignedPublicKey, SignedSecretKey};
+    use pgp::packet::{KeyFlags, UserAttribute, UserId};
+    use pgp::types::{KeyDetails, PacketHeaderVersion, SignedUser, SignedUserAttribute, Tag};
+    let kind = *t.pick(kinds);
+    let other_kind = zoo::decoy_for(kind);
+    let z = zoo::get(kind);
+    let o = zoo::get(other_kind);
+    let key = &z.secret.primary_key;
+    let pubk = &z.public.primary_key;
+    let pw = Password::empty();
+    let mut rng = ChaCha8Rng::from_seed(t.seed32());
+    let bad = |rec: &mut Rec, what: &str, check: &str, e: String| {
+        rec.soft_fail(format!("C06:certificate:{what}:{check}-rejects"), format!("{kind:?}: {e}"));
+    };
+    rec.label(format!("key:{kind:?}"));
+    match t.below(6) {
+        0 | 1 => {
+            // user id self-certification and third-party certification
+            let text = match t.below(5) {
+                0 => String::new(),
+                1 => "Alice <alice@example.org>".to_string(),
+                2 => random_text(t, 40),
+                3 => "ü€ line\r\nbreak\n".repeat(t.range(1, 20)),
+                _ => "x".repeat(*t.pick(&[191usize, 192, 255, 256, 8383, 8384])),
+            };
+            let uid = UserId::from_str(if t.chance(40) { PacketHeaderVersion::Old } else { PacketHeaderVersion::New }, &text).map_err(|e| crate::engine::Fail { sig: "C06:certificate:user-id-refused".into(), detail: e.to_string() })?;
+            let third = t.bool();
+            rec.label(if third { "cert:user-id-third-party" } else { "cert:user-id-self" });
+            rec.nontrivial(("uid", format!("{kind:?}"), third, text.len()));
+            rec.describe(|| format!("{kind:?} {} a user id of {} bytes", if third { "certifies (third party, on the decoy key)" } else { "self-certifies" }, text.len()));
+            let signed: SignedUser = if third {
+                let typ = *t.pick(&[SignatureType::CertGeneric, SignatureType::CertPersona, SignatureType::CertCasual, SignatureType::CertPositive]);
+                uid.sign_third_party(&mut rng, key, &pw, &o.public.primary_key, typ)
+            } else {
+                uid.sign(&mut rng, key, pubk, &pw)
+            }
+            .map_err(|e| crate::engine::Fail { sig: "C06:certificate:sign-error".into(), detail: format!("{kind:?}: {e}") })?;
+            let bytes = signed.to_bytes().map_err(|e| crate::engine::Fail { sig: "C06:certificate:serialize-error".into(), detail: e.to_string() })?;
+            // re-parse the user id and its signature from the serialized form
+            let mut parsed_uid = None;
+            let mut parsed_sig = None;
+            for p in PacketParser::new(&bytes[..]) {
+                match p {
+                    Ok(Packet::UserId(u)) => parsed_uid = Some(u),
+                    Ok(Packet::Signature(s)) => parsed_sig = Some(s),
+                    _ => {}
+                }
+            }
+            let (Some(pu), Some(ps)) = (parsed_uid, parsed_sig) else {
+                rec.soft_fail("C06:certificate:own-serialization-rejected", format!("{kind:?}: signed user id of {} bytes does not parse back", text.len()));
+                return Ok(());
+            };
+            for (form, u, s) in [("direct", &signed.id, &signed.signatures[0]), ("re-parsed", &pu, &ps)] {
+                if third {
+                    if let Err(e) = s.verify_third_party_certification(&o.public.primary_key, pubk, Tag::UserId, u) {
+                        bad(rec, "user-id-third-party", &format!("Signature::verify_third_party_certification({form})"), e.to_string());
+                    }
+                    if let Err(e) = s.verify_third_party_certification(&o.public.primary_key, &z.public, Tag::UserId, u) {
+                        bad(rec, "user-id-third-party", &format!("Signature::verify_third_party_certification(SignedPublicKey signer, {form})"), e.to_string());
+                    }
+                } else if let Err(e) = s.verify_certification(pubk, Tag::UserId, u) {
+                    bad(rec, "user-id-self", &format!("Signature::verify_certification({form})"), e.to_string());
+                }
+            }
+            let su2 = SignedUser::new(pu, vec![ps]);
+            let r = if third { su2.verify_third_party(&o.public.primary_key, pubk) } else { su2.verify_bindings(pubk) };
+            if let Err(e) = r {
+                bad(rec, if third { "user-id-third-party" } else { "user-id-self" }, "SignedUser::verify(re-parsed)", e.to_string());
+            }
+            let r = if third { signed.verify_third_party(&o.public.primary_key, pubk) } else { signed.verify_bindings(pubk) };
+            if let Err(e) = r {
+                bad(rec, if third { "user-id-third-party" } else { "user-id-self" }, "SignedUser::verify", e.to_string());
+            }
+            if !third {
+                // a certificate assembled from the zoo key and the new user id must pass import + verify_bindings
+                let mut cert = z.public.clone();
+                cert.details.users.push(signed.clone());
+                match cert.to_bytes().map_err(|e| e.to_string()).and_then(|b| SignedPublicKey::from_bytes(&b[..]).map_err(|e| e.to_string())) {
+                    Ok(c2) => {
+                        if let Err(e) = c2.verify_bindings() {
+                            bad(rec, "user-id-self", "SignedPublicKey::verify_bindings(after export and import)", e.to_string());
+                        }
+                    }
+                    Err(e) => bad(rec, "user-id-self", "SignedPublicKey::from_bytes", e),
+                }
+            }
+        }
+        2 => {
+            let n = *t.pick(&[0usize, 1, 100, 175, 176, 3000, 16303, 16304]);
+            let attr = UserAttribute::new_image(crate::engine::expand(t.u64(), n).into()).map_err(|e| crate::engine::Fail { sig: "C06:certificate:user-attribute-refused".into(), detail: e.to_string() })?;
+            let third = t.bool();
+            rec.label(if third { "cert:user-attribute-third-party" } else { "cert:user-attribute-self" });
+            rec.nontrivial(("attr", format!("{kind:?}"), third, n));
+            rec.describe(|| format!("{kind:?} certifies a {n}-byte image attribute (third party: {third})"));
+            let signed: SignedUserAttribute = if third { attr.sign_third_party(&mut rng, key, &pw, &o.public.primary_key, SignatureType::CertGeneric) } else { attr.sign(&mut rng, key, pubk, &pw) }.map_err(|e| crate::engine::Fail { sig: "C06:certificate:sign-error".into(), detail: format!("{kind:?}: {e}") })?;
+            let r = if third { signed.verify_third_party(&o.public.primary_key, pubk) } else { signed.verify_bindings(pubk) };
+            if let Err(e) = r {
+                bad(rec, "user-attribute", "SignedUserAttribute::verify", e.to_string());
+            }
+            let s = &signed.signatures[0];
+            let r = if third { s.verify_third_party_certification(&o.public.primary_key, pubk, Tag::UserAttribute, &signed.attr) } else { s.verify_certification(pubk, Tag::UserAttribute, &signed.attr) };
+            if let Err(e) = r {
+                bad(rec, "user-attribute", "Signature::verify_certification", e.to_string());
+            }
+            if !third {
+                let mut cert = z.public.clone();
+                cert.details.user_attributes.push(signed.clone());
+                match cert.to_bytes().map_err(|e| e.to_string()).and_then(|b| SignedPublicKey::from_bytes(&b[..]).map_err(|e| e.to_string())) {
+                    Ok(c2) => {
+                        if let Err(e) = c2.verify_bindings() {
+                            bad(rec, "user-attribute", "SignedPublicKey::verify_bindings(after export and import)", e.to_string());
+                        }
+                    }
+                    Err(e) => bad(rec, "user-attribute", "SignedPublicKey::from_bytes", e),
+                }
+            }
+        }
+        3 | 4 => {
+            // subkey binding made through the subkey packet API, with and without back signature
+            if z.secret.secret_subkeys.is_empty() {
+                rec.discard();
+                return Ok(());
+            }
+            // bind the decoy's (same version) encryption subkey, and this key's own
+            let own = t.bool();
+            let sub_secret = if own { &z.secret.secret_subkeys[0].key } else { &o.secret.secret_subkeys[0].key };
+            let sub_pub = sub_secret.public_key();
+            let mut flags = KeyFlags::default();
+            let signing = t.bool() && sub_secret.algorithm().can_sign();
+            if signing {
+                flags.set_sign(true);
+            } else {
+                flags.set_encrypt_comms(true);
+                flags.set_encrypt_storage(true);
+            }
+            if t.chance(60) {
+                flags.set_adsk(true);
+            }
+            rec.label(if signing { "cert:subkey-binding-with-back-signature" } else { "cert:subkey-binding" });
+            rec.nontrivial(("subkey", format!("{kind:?}"), own, signing));
+            rec.describe(|| format!("{kind:?} binds {} subkey (signing capable: {signing})", if own { "its own" } else { "the decoy's" }));
+            let embedded = if signing { Some(sub_secret.sign_primary_key_binding(&mut rng, pubk, &pw).map_err(|e| crate::engine::Fail { sig: "C06:certificate:sign-error".into(), detail: format!("back signature: {e}") })?) } else { None };
+            if let Some(b) = &embedded {
+                if let Err(e) = b.verify_primary_key_binding(&sub_pub, pubk) {
+                    bad(rec, "primary-key-binding", "Signature::verify_primary_key_binding", e.to_string());
+                }
+            }
+            let sig = if t.bool() { sub_pub.sign(&mut rng, key, pubk, &pw, flags.clone(), embedded.clone()) } else { sub_secret.sign(&mut rng, key, pubk, &pw, flags.clone(), embedded.clone()) }.map_err(|e| crate::engine::Fail { sig: "C06:certificate:sign-error".into(), detail: format!("subkey binding: {e}") })?;
+            if let Err(e) = sig.verify_subkey_binding(pubk, &sub_pub) {
+                bad(rec, "subkey-binding", "Signature::verify_subkey_binding", e.to_string());
+            }
+            // through the composed types, after export and import, on the public and on the secret path
+            let mut cert = z.public.clone();
+            cert.public_subkeys.push(pgp::composed::SignedPublicSubKey::new(sub_pub.clone(), vec![sig.clone()]));
+            match cert.to_bytes().map_err(|e| e.to_string()).and_then(|b| SignedPublicKey::from_bytes(&b[..]).map_err(|e| e.to_string())) {
+                Ok(c2) => {
+                    if let Err(e) = c2.verify_bindings() {
+                        bad(rec, "subkey-binding", "SignedPublicKey::verify_bindings(after export and import)", e.to_string());
+                    }
+                    if c2 != cert {
+                        rec.soft_fail("C06:certificate:subkey-binding:re-import-differs", format!("{kind:?}"));
+                    }
+                }
+                Err(e) => bad(rec, "subkey-binding", "SignedPublicKey::from_bytes", e),
+            }
+            let mut scert = z.secret.clone();
+            scert.secret_subkeys.push(pgp::composed::SignedSecretSubKey::new(sub_secret.clone(), vec![sig.clone()]));
+            match scert.to_bytes().map_err(|e| e.to_string()).and_then(|b| SignedSecretKey::from_bytes(&b[..]).map_err(|e| e.to_string())) {
+                Ok(c2) => {
+                    if let Err(e) = c2.verify_bindings() {
+                        bad(rec, "subkey-binding", "SignedSecretKey::verify_bindings(after export and import)", e.to_string());
+                    }
+                }
+                Err(e) => bad(rec, "subkey-binding", "SignedSecretKey::from_bytes", e),
+            }
+        }
+        _ => {
+            // direct key signature / key revocation style signatures over a key
+            let typ = *t.pick(&[SignatureType::Key, SignatureType::KeyRevocation]);
+            let third = t.bool();
+            rec.label(format!("cert:{typ:?}{}", if third { "-third-party" } else { "" }));
+            rec.nontrivial(("key-sig", format!("{kind:?}"), format!("{typ:?}"), third));
+            rec.describe(|| format!("{kind:?} makes a {typ:?} signature over {}", if third { "the decoy key" } else { "itself" }));
+            let hash = *t.pick(kind.hashes());
+            let mut cfg = make_config(key, typ, hash, &mut rng).map_err(|e| crate::engine::Fail { sig: "C06:certificate:config-error".into(), detail: e })?;
+            cfg.hashed_subpackets = vec![Subpacket::regular(SubpacketData::SignatureCreationTime(Timestamp::from_secs(1_700_000_020))).expect("subpacket"), Subpacket::regular(SubpacketData::IssuerFingerprint(key.fingerprint())).expect("subpacket")];
+            let target = if third { &o.public.primary_key } else { pubk };
+            let sig = cfg.sign_key(key, &pw, target).map_err(|e| crate::engine::Fail { sig: "C06:certificate:sign-error".into(), detail: format!("{typ:?}: {e}") })?;
+            let bytes = sig.to_bytes().map_err(|e| crate::engine::Fail { sig: "C06:certificate:serialize-error".into(), detail: e.to_string() })?;
+            let reparsed = match PacketParser::new(&wire::new_packet(2, &bytes)[..]).next() {
+                Some(Ok(Packet::Signature(s))) => s,
+                _ => {
+                    rec.soft_fail("C06:certificate:own-serialization-rejected", format!("{typ:?} signature by {kind:?}"));
+                    return Ok(());
+                }
+            };
+            for (form, s) in [("direct", &sig), ("re-parsed", &reparsed)] {
+                let r = if third { s.verify_key_third_party(target, pubk) } else { s.verify_key(pubk) };
+                if let Err(e) = r {
+                    bad(rec, "key-signature", &format!("Signature::verify_key({form})"), e.to_string());
+                }
+            }
+        }
+    }
+    Ok(())
+}
+
 pub fn run(ctx: &Ctx) {
-    ctx.set_rule("payloads: every string over {CR,LF,x} of length 0..=L (exhaustive) and random strings over {CR,LF,TAB,SP,'-',a,é,€,NUL} incl. long ones with CR/LF on the 512/1024/8192 buffer edges; each signed through every data-signing interface (detached binary/text, SignatureConfig::sign, hasher+io::Write chunks, message builder with 1..3 signers, cleartext sign/new/new_many) and checked through every applicable verify interface (Signature::verify via PublicKey and SignedPublicKey, DetachedSignature::verify, after binary and armored re-parse, Message::verify on a harness-built prefixed message, Message::verify/verify_nested on builder output, extracted one-pass signature as detached, cleartext verify/verify_many, after armor round trip); non-trivial = payload contains CR/LF, is empty, or has a trailing blank; distinct = (payload, key, type)");
+    ctx.set_rule("payloads: every string over {CR,LF,x} of length 0..=L (exhaustive) and random strings over {CR,LF,TAB,SP,'-',a,é,€,NUL} incl. long ones with CR/LF on the 512/1024/8192 buffer edges; each signed through every data-signing interface (detached binary/text, SignatureConfig::sign, hasher+io::Write chunks, message builder with 1..3 signers, cleartext sign/new/new_many) and checked through every applicable verify interface (Signature::verify via PublicKey and SignedPublicKey, DetachedSignature::verify, after binary and armored re-parse, Message::verify on a harness-built prefixed message, Message::verify/verify_nested on builder output, extracted one-pass signature as detached, cleartext verify/verify_many, after armor round trip); certificate group: UserId/UserAttribute::sign and sign_third_party (ids of 0..8384 bytes, images across the subpacket length classes), PublicSubkey/SecretSubkey::sign with and without SecretSubkey::sign_primary_key_binding back signature and ADSK flag, SignatureConfig::sign_key for direct-key and key-revocation signatures, each checked through Signature::verify_certification / verify_third_party_certification / verify_subkey_binding / verify_primary_key_binding / verify_key(_third_party), SignedUser(/Attribute)::verify_bindings / verify_third_party, and SignedPublicKey/SignedSecretKey::verify_bindings after export and import; non-trivial = payload contains CR/LF, is empty, or has a trailing blank; distinct = (payload, key, type)");
     ctx.assume("prefixed signed messages are assembled by the harness' own packet framer (signature packet followed by a literal packet)");
     let cheap = zoo::CHEAP_SIGNERS;
     zoo::warm(cheap);
@@ -424,4 +637,8 @@ pub fn run(ctx: &Ctx) {
         let text = random_text(t, 24);
         cleartext_case(t, rec, text, all)
     });
+    let cert_kinds = [Kind::Ed25519V4, Kind::Ed25519V6, Kind::EdLegacyV4, Kind::P256V4, Kind::RsaV4];
+    zoo::warm(&[Kind::Ed25519V4B, Kind::Ed25519V6B, Kind::EdLegacyV4B, Kind::P256V4B, Kind::RsaV4B, Kind::RsaV4]);
+    let n = ctx.tier.pick(3000u64, 60_000);
+    ctx.group("certificate-signature-apis", Source::Random { n, tape_len: 200 }, |t, rec| certificate_signature_case(t, rec, &cert_kinds));
 }
